@@ -66,9 +66,13 @@ func genFunc(w *World, fs *FuncSpec) (*Gen, error) {
 
 func (g *Gen) addAxioms() {
 	for _, ax := range g.W.axioms {
-		env := g.specEnv(&State{reach: "true", locals: nil, heap: map[string]string{}, ghosts: map[string]Val{}, alloc: "0"}, nil)
-		env.calleePkg = g.W.lemmaPkg
-		g.axioms = append(g.axioms, env.evalBool(ax.E))
+		pkg := g.W.typesPkgs[ax.pkg]
+		if pkg == nil {
+			continue // axioms of packages that are not part of this load cannot be relevant
+		}
+		env := g.specEnv(&State{reach: "true", locals: nil, heap: map[string]string{}, ghosts: map[string]Val{}, alloc: "0", pend: map[string]int{}}, nil)
+		env.calleePkg = pkg
+		g.axioms = append(g.axioms, env.evalBool(ax.c.E))
 	}
 }
 
@@ -261,6 +265,7 @@ func runCheck(cmd, prop, tier string, seed int, only, dump string, verbose bool)
 	}
 	tGen := time.Since(t0) - tLoad
 	var jobs []*job
+	var skipped []*Obligation
 	for _, g := range gens {
 		for _, o := range g.obls {
 			jobs = append(jobs, &job{g: g, o: o, idx: len(jobs)})
@@ -274,6 +279,27 @@ func runCheck(cmd, prop, tier string, seed int, only, dump string, verbose bool)
 	timeout := 10
 	if tier == "thorough" {
 		timeout = 60
+	}
+	if cmd == "check" && tier != "thorough" {
+		// quick tier: only claimed clauses and known findings are attempted; other generated
+		// obligations (mostly implicit safety obligations without a precondition) are listed, not solved
+		if claims, ok := loadClaims(prop); ok {
+			kf := map[string]bool{}
+			for _, k := range kfs {
+				kf[k.Obligation] = true
+			}
+			var keep []*job
+			for _, j := range jobs {
+				k := j.o.Func + "#" + j.o.Clause
+				if claims[k] || kf[k] || j.o.Clause == "$cover" {
+					j.idx = len(keep)
+					keep = append(keep, j)
+				} else {
+					skipped = append(skipped, j.o)
+				}
+			}
+			jobs = keep
+		}
 	}
 	if cmd == "list" {
 		for _, g := range gens {
@@ -386,6 +412,16 @@ func runCheck(cmd, prop, tier string, seed int, only, dump string, verbose bool)
 		return 0
 	}
 
+	seenSk := map[string]bool{}
+	for _, o := range skipped {
+		k := o.Func + "#" + o.Clause
+		if !seenSk[k] {
+			seenSk[k] = true
+			order = append(order, k)
+			clauses[k] = &clauseAgg{cs: ClauseStatus{Key: k, Class: o.Class, Desc: o.Desc, Status: "not attempted (quick tier)", Implicit: o.Implicit, Pos: o.Pos}}
+		}
+		clauses[k].cs.Instances++
+	}
 	claims, haveClaims := loadClaims(prop)
 	if !haveClaims {
 		fmt.Println("gvc: no claims file for", prop)
